@@ -1310,8 +1310,8 @@ class Infrastructure(Exception):
     """the run could not be set up (no pipes / sockets / threads): exit 2, never a violation"""
 
 
-def wait_until(cond, ceiling=REAL_CEILING):
-    t_end = time.time() + ceiling
+def wait_until(cond, ceiling=None):
+    t_end = time.time() + (REAL_CEILING if ceiling is None else ceiling)
     while True:
         if cond():
             return True
@@ -1705,10 +1705,11 @@ def run_real_threads(transport, scenario, fault=None):
         threads.append(tb)
         root = ca.root
         slow = root.slow
-        two = scenario.endswith("two_waiters")
+        local = scenario == "local_close_while_waiter_blocked"
+        two = scenario.endswith("two_waiters") or local
         ars = [rpyc.async_(slow)()]
         toks.append("is0:F")
-        if two:
+        if two and not local:
             ars.append(rpyc.async_(slow)())                 # queued behind the first at B
             toks.append("is1:F")
         if not box["started"].wait(REAL_CEILING):
@@ -1733,7 +1734,7 @@ def run_real_threads(transport, scenario, fault=None):
             fsock.arm("recv", fault["after"], getattr(errno_mod, fault["errno"]))
         mine = []
         if two:
-            for i in (0, 1):
+            for i in range(len(ars)):
                 th = threading.Thread(target=waiter, args=(i,), daemon=True, name="real-A%d" % i)
                 th.start()
                 mine.append(th)
@@ -1747,6 +1748,14 @@ def run_real_threads(transport, scenario, fault=None):
         threads += mine
         if fsock is not None:
             box["release"].set()                              # B answers; A's read of the reply fails
+        elif local:
+            # THIS thread closes the connection while the other one is blocked waiting for its reply; the peer is
+            # silent (busy in its handler): the waiter must be released by the local close alone
+            try:
+                ca.close()
+            except BaseException as ex:  # noqa
+                res["close_raised"] = type(ex).__name__
+            toks += ["cb", "ces"]
         else:
             strb.close()                                      # B's end goes away: no HANDLE_CLOSE
         toks.append("ese")
@@ -1869,7 +1878,8 @@ def run_real_bg(transport, scenario):
 def run_real_case(case):
     if case["scenario"] == "abrupt_bg_thread":
         return run_real_bg(case["transport"], case["scenario"])
-    if case["scenario"].endswith("two_waiters") or case["scenario"].endswith("serve_threaded"):
+    if case["scenario"].endswith("two_waiters") or case["scenario"].endswith("serve_threaded") \
+            or case["scenario"] == "local_close_while_waiter_blocked":
         return run_real_threads(case["transport"], case["scenario"], case.get("fault"))
     if case.get("fault"):
         return run_real_fault(case["transport"], case["scenario"], case["fault"])
@@ -1924,6 +1934,7 @@ def real_oracle(res):
     if res["wait_out"] != "eof":
         return ("%s: the pending request ended with %r, not EOFError" % (where, res["wait_out"]), "C11:hang")
     if not res["a_thread_ended"] or (not res["scenario"].endswith("in_wait") and not res["scenario"].endswith("two_waiters")
+                                     and res["scenario"] != "local_close_while_waiter_blocked"
                                      and not res["serve_all_returned"]):
         return ("%s: serve_all()/wait() did not return" % where, "C11:hang")
     if res["close_again"] is not None:
@@ -1957,6 +1968,10 @@ def real_cases():
         cases.append(dict(kind="real", transport=t, scenario="abrupt_two_waiters"))
         cases.append(dict(kind="real", transport=t, scenario="abrupt_serve_threaded"))
         cases.append(dict(kind="real", transport=t, scenario="abrupt_bg_thread"))
+        if t == "socket":
+            # (on a pipe a local close() does not wake a thread of the same process that is polling the descriptor:
+            # probed separately, see known_probes)
+            cases.append(dict(kind="real", transport=t, scenario="local_close_while_waiter_blocked"))
     cases.append(dict(kind="real", transport="socket", scenario="io_error_two_waiters",
                       fault=dict(op="recv", errno="ECONNRESET", after=2)))
     cases.append(dict(kind="real", transport="socket", scenario="io_error_serve_threaded",
@@ -2136,6 +2151,35 @@ def oracle_search(ctx, corr, broken):
             if r:
                 return r
     return None
+
+
+PIPE_LOCAL_CLOSE_SIGNATURE = "C11:pipe-local-close-does-not-wake-other-thread"
+
+
+def known_probes(ctx):
+    """PipeStream: thread 1 closes the connection while thread 2 is blocked in serve() waiting for a reply and the peer is
+    silent.  PipeStream.close() closes the descriptors, which does not wake a poll() of the same process on them (there
+    is no shutdown() for pipes): thread 2 stays blocked until the peer speaks or its own timeout.  Run only once the
+    finding is listed in known_findings.json (status known: reported as KNOWN-FINDING; status fixed: a violation if it
+    comes back)."""
+    import json
+    import os
+    try:
+        with open(os.path.join(os.path.dirname(os.path.abspath(__file__)), "..", "..", "known_findings.json")) as f:
+            listed = [k for k in json.load(f).get("findings", []) if k.get("signature") == PIPE_LOCAL_CLOSE_SIGNATURE]
+    except Exception:  # noqa
+        listed = []
+    if not listed:
+        return []
+    global REAL_CEILING
+    saved = REAL_CEILING
+    REAL_CEILING = 2.0
+    try:
+        res = run_real_case(dict(kind="real", transport="pipe", scenario="local_close_while_waiter_blocked"))
+    finally:
+        REAL_CEILING = saved
+    r = real_oracle(res)
+    return [(PIPE_LOCAL_CLOSE_SIGNATURE, bool(r), (r[0] if r else "pipe: the blocked thread was released by the local close"))]
 
 
 def replay(case):
